@@ -146,14 +146,27 @@ def check(case, rec):
             jpath = os.path.join(d, "in.json")
             c01.write(t, jpath + ".h5", dict(case, writer="to_hdf5"))
             from ..cli import invoke
+            # --collapsed-observations / --collapsed-samples: the axis
+            # metadata becomes {'collapsed_ids': sorted category names}
+            which = {0: ("observation", "sample"), 1: ("observation",),
+                     2: ("sample",)}.get(len(case["generated_by"]) % 6, ())
+            which = tuple(a for a in which
+                          if src["obs_md" if a == "observation"
+                                 else "samp_md"] is not None)
+            flags = ["--collapsed-%ss" % a for a in which]
             rc, out_ = invoke(convert, "convert",
-                              ["-i", jpath + ".h5", "-o", path, "--to-hdf5"],
-                              case.get("sub", False))
+                              ["-i", jpath + ".h5", "-o", path, "--to-hdf5"]
+                              + flags, case.get("sub", False))
             if rc != 0:
                 raise Violation("cli-exit", "convert exited %r: %s" %
                                 (rc, out_[-300:]))
             t = load_table(jpath + ".h5")
             src = observe.snapshot(t)
+            for a in which:
+                key = "obs_md" if a == "observation" else "samp_md"
+                src[key] = [{"collapsed_ids": sorted(m_.keys())}
+                            for m_ in src[key]]
+                rec.cls("convert --collapsed-%ss" % a)
             gen_by = None
         else:
             mode = case.get("date_mode", "explicit")
